@@ -4,7 +4,7 @@ from pyvc import z as Z
 from pyvc import modelx
 from pyvc.run import Item
 
-TARGETS = ['clastic.application.Application.add']
+TARGETS = ['clastic.application.Application.add', 'clastic.route.BoundRoute.__init__']
 
 CANARIES = [
     {'name': 'add-inserts-at-fixed-index', 'file': 'clastic/application.py',
